@@ -9,7 +9,8 @@ Hand model of the path machinery of pdfminer.six (after the `fix:` commits of C1
   layout.LTCurve / LTLine / LTRect              pts, bbox (`get_bound`)                    (`mkCurve`, `mkLine`, `mkRect`)
 
 Regenerated from the Python source (Gen/PathsGen.lean): `apply_matrix_pt`, `mult_matrix`,
-`PREDEFINED_COLORSPACE`, `opNargs`, `paintOps`, `rePath`, `pageCtm`.
+`PREDEFINED_COLORSPACE`, `opNargs`, `paintOps`, `rePath`, `pageCtm`, and the straight-line tests of
+`paint_path` (`lineShapes`, `rectShapes`, `redundant*`, `has_square_coordinates`, `closedLoopPts`, `rectCorners`, ...).
 Numbers are exact rationals (the harness only feeds dyadic values on which float arithmetic is exact).
 -/
 import PdfVerif.Model.Prelude
@@ -176,29 +177,36 @@ def countM (path : List PSeg) : Nat := (path.filter PSeg.isM).length
 
 /-- `has_square_coordinates` -/
 def squareCoords (p0 p1 p2 p3 : Point) : Bool :=
-  decide ((p0.1 = p1.1 ∧ p1.2 = p2.2 ∧ p2.1 = p3.1 ∧ p3.2 = p0.2) ∨
-          (p0.2 = p1.2 ∧ p1.1 = p2.1 ∧ p2.2 = p3.2 ∧ p3.1 = p0.1))
+  has_square_coordinates p0.1 p0.2 p1.1 p1.2 p2.1 p2.2 p3.1 p3.2   -- regenerated from converter.py
 
 /-- `x[0]` of a path segment: the operator letter. -/
 def PSeg.letter : PSeg → Char
   | .m _ => 'm' | .l _ => 'l' | .c .. => 'c' | .v .. => 'v' | .y .. => 'y' | .h => 'h'
 
-/-- `len(shape) > 3 and shape[-2:] == "lh" and pts[-2] == pts[0]` -/
+/-- `len(shape) > 3 and shape[-2:] == "lh" and pts[-2] == pts[0]`; the constants are regenerated from
+converter.py (`redundantMinLen`, `redundantSuffix`, `redundantPts`). -/
 def redundantL (shape : List Char) (pts : List Point) : Bool :=
-  decide (shape.length > 3 ∧ shape.drop (shape.length - 2) = ['l', 'h'] ∧ pts[pts.length - 2]? = pts.head?)
+  decide (shape.length > redundantMinLen ∧
+    shape.drop (shape.length - redundantSuffix.length) = redundantSuffix ∧
+    pts[pts.length - redundantPts.1]? = pts[redundantPts.2]?)
 
-/-- The classification at the end of paint_path on the string of operator letters `shape`. -/
+/-- The classification at the end of paint_path on the string of operator letters `shape`.  The shape
+strings, the point indices of `LTLine`, `is_closed_loop`, the `LTRect` corners and `rect.pts = pts[:4]` are
+regenerated from converter.py (`lineShapes`, `linePts`, `rectShapes`, `closedLoopPts`, `rectCorners`,
+`rectPtsTake`, `has_square_coordinates`). -/
 def classifyShape (a : PaintArgs) (shape : List Char) (pts : List Point) (tpath : List PSeg) : List Shape :=
-  if shape = ['m', 'l', 'h'] ∨ shape = ['m', 'l'] then
+  if shape ∈ lineShapes then
+    match pts[linePts.1]?, pts[linePts.2]? with
+    | some p0, some p1 => [mkLine a p0 p1 tpath]
+    | _, _ => []                                -- unreachable: two letters, two points
+  else if shape ∈ rectShapes then
     match pts with
-    | p0 :: p1 :: _ => [mkLine a p0 p1 tpath]
-    | _ => []                                   -- unreachable: two letters, two points
-  else if shape = ['m', 'l', 'l', 'l', 'h'] ∨ shape = ['m', 'l', 'l', 'l', 'l'] then
-    match pts with
-    | [p0, p1, p2, p3, p4] =>
-      if p0 = p4 ∧ squareCoords p0 p1 p2 p3 = true then
+    | [p0, p1, p2, p3, _] =>
+      if pts[closedLoopPts.1]? = pts[closedLoopPts.2]? ∧ squareCoords p0 p1 p2 p3 = true then
         -- `rect = LTRect(.., (*pts[0], *pts[2]), ..); rect.pts = pts[:4]` (bbox stays the one of the corners)
-        [{ mkRect a (p0.1, p0.2, p2.1, p2.2) tpath with pts := [p0, p1, p2, p3] }]
+        match pts[rectCorners.1]?, pts[rectCorners.2]? with
+        | some c0, some c2 => [{ mkRect a (c0.1, c0.2, c2.1, c2.2) tpath with pts := pts.take rectPtsTake }]
+        | _, _ => []                            -- unreachable
       else [mkCurve a pts tpath]
     | _ => []                                   -- unreachable: five letters, five points
   else [mkCurve a pts tpath]
@@ -214,7 +222,7 @@ def paintSingle (ctm : Matrix) (a : PaintArgs) (path : List PSeg) : List Shape :
     let tpath := path.map (PSeg.mapPts (apply_matrix_pt ctm))
     let shape0 := path.map PSeg.letter
     -- Drop a redundant "l" on a path closed with "h"
-    let shape := if redundantL shape0 pts0 then shape0.take (shape0.length - 2) ++ ['h'] else shape0
+    let shape := if redundantL shape0 pts0 then shape0.take (shape0.length - redundantCut) ++ redundantTail else shape0
     let pts := if redundantL shape0 pts0 then pts0.dropLast else pts0
     classifyShape a shape pts tpath
 
@@ -287,7 +295,25 @@ def segOfRaw : String × List Rat → Option PSeg
   | ("m", [x, y]) => some (.m (x, y))
   | ("l", [x, y]) => some (.l (x, y))
   | ("h", []) => some .h
+  | ("c", [x1, y1, x2, y2, x3, y3]) => some (.c (x1, y1) (x2, y2) (x3, y3))
+  | ("v", [x2, y2, x3, y3]) => some (.v (x2, y2) (x3, y3))
+  | ("y", [x1, y1, x3, y3]) => some (.y (x1, y1) (x3, y3))
   | _ => none
+
+/-- The segment `do_m / do_l / do_c / do_v / do_y` append for the float operands `xs`: letter and operand
+order come from the regenerated table `segAppend` (nothing when the operand count is not the method's). -/
+def segOf (k : OpK) (xs : List Rat) : Option PSeg :=
+  match segAppend.lookup k.name with
+  | some (letter, idx) => if xs.length = idx.length then segOfRaw (letter, idx.filterMap (fun i => xs[i]?)) else none
+  | none => none
+
+/-- `do_m l c v y`: every operand must convert (`safe_float`), then the segment is appended. -/
+def doSeg (k : OpK) (args : List Operand) (st : IState) : IState :=
+  match allNums args with
+  | some xs => match segOf k xs with
+    | some s => pushSeg st s
+    | none => st
+  | none => st
 
 /-- `self.device.paint_path(self.graphicstate, stroke, fill, evenodd, self.curpath); self.curpath = []` -/
 def doPaint (st : IState) (stroke fill evenodd : Bool) : IState :=
@@ -302,10 +328,11 @@ def setSpace (st : IState) (stroking : Bool) (n : Nat) : IState :=
 
 /-- `PDFPageInterpreter._initial_color` (ISO 32000-1 Table 74, operator CS). -/
 def initialColour (cs : CSpace) : Option Colour :=
-  if cs.name == "Pattern" || cs.n < 1 then none
-  else if cs.name == "DeviceCMYK" then some (.comps [0, 0, 0, 1])
+  -- the constants are regenerated from pdfinterp.py (`initNoneFamily` … `initOneFamilies`)
+  if cs.name == initNoneFamily || cs.n < 1 || cs.n > initMaxComponents then none
+  else if cs.name == initCmykFamily then some (.comps initCmyk)
   else
-    let v : Rat := if cs.name == "Separation" || cs.name == "DeviceN" then 1 else 0
+    let v : Rat := if initOneFamilies.contains cs.name then 1 else 0
     some (.comps (List.replicate cs.n v))
 
 def setColourOpt (st : IState) (stroking : Bool) (c : Option Colour) : IState :=
@@ -345,21 +372,11 @@ def doSetColourN (st : IState) (stroking : Bool) : Except Err IState :=
 /-- The body of `do_<k>` applied to exactly `nargs` operands. -/
 def call (k : OpK) (args : List Operand) (st : IState) : Except Err IState :=
   match k with
-  | .m => match allNums args with
-    | some [x, y] => .ok (pushSeg st (.m (x, y)))
-    | _ => .ok st
-  | .l => match allNums args with
-    | some [x, y] => .ok (pushSeg st (.l (x, y)))
-    | _ => .ok st
-  | .c => match allNums args with
-    | some [x1, y1, x2, y2, x3, y3] => .ok (pushSeg st (.c (x1, y1) (x2, y2) (x3, y3)))
-    | _ => .ok st
-  | .v => match allNums args with
-    | some [x2, y2, x3, y3] => .ok (pushSeg st (.v (x2, y2) (x3, y3)))
-    | _ => .ok st
-  | .y => match allNums args with
-    | some [x1, y1, x3, y3] => .ok (pushSeg st (.y (x1, y1) (x3, y3)))
-    | _ => .ok st
+  | .m => .ok (doSeg .m args st)
+  | .l => .ok (doSeg .l args st)
+  | .c => .ok (doSeg .c args st)
+  | .v => .ok (doSeg .v args st)
+  | .y => .ok (doSeg .y args st)
   | .h => .ok (doH st)
   | .re => match allNums args with
     | some [x, y, w, h] => .ok { st with curpath := st.curpath ++ (rePath x y w h).filterMap segOfRaw }
@@ -402,7 +419,9 @@ def call (k : OpK) (args : List Operand) (st : IState) : Except Err IState :=
     | (ctm, gs) :: rest => .ok { st with ctm := ctm, gs := gs, gstack := rest }
     | [] => .ok st
   | .cm => match allNums args with
-    | some [a, b, c, d, e, f] => .ok { st with ctm := mult_matrix (a, b, c, d, e, f) st.ctm }
+    | some [a, b, c, d, e, f] =>
+      .ok { st with ctm := if cmPremultiplies then mult_matrix (a, b, c, d, e, f) st.ctm
+                           else mult_matrix st.ctm (a, b, c, d, e, f) }
     | _ => .ok st
   | .other _ => .ok st
 
@@ -459,5 +478,44 @@ def runPage (rotate : Int) (mb : Rect) (res : List (String × CsSpec)) (toks : L
   match execute toks (initState (pageCtm rotate x0 y0 x1 y1) res) with
   | .ok st => .ok st.out
   | .error e => .error e
+
+/-! ### several pages through ONE interpreter (what `extract_pages` / `pdf2txt` do) -/
+
+/-- The state in which `render_contents` starts a page on an interpreter that has already processed other
+pages (`prev` = where the previous page's content ended): `init_resources` rebuilds the colour-space map,
+`begin_page` gives the device a new, empty page, and `init_state` overwrites exactly the attributes named in
+the regenerated list `initStateResets` - everything else would survive from the previous page. -/
+def initStateOn (prev : IState) (ctm : Matrix) (res : List (String × CsSpec)) : IState :=
+  let fresh := initState ctm res
+  let rs := initStateResets
+  { ctm := if rs.contains "ctm" then fresh.ctm else prev.ctm,
+    gs := { linewidth := if rs.contains "graphicstate" then fresh.gs.linewidth else prev.gs.linewidth,
+            dash := if rs.contains "graphicstate" then fresh.gs.dash else prev.gs.dash,
+            scolor := if rs.contains "graphicstate" then fresh.gs.scolor else prev.gs.scolor,
+            ncolor := if rs.contains "graphicstate" then fresh.gs.ncolor else prev.gs.ncolor,
+            scs := if rs.contains "scs" then fresh.gs.scs else prev.gs.scs,
+            ncs := if rs.contains "ncs" then fresh.gs.ncs else prev.gs.ncs },
+    gstack := if rs.contains "gstack" then fresh.gstack else prev.gstack,
+    curpath := if rs.contains "curpath" then fresh.curpath else prev.curpath,
+    argstack := if rs.contains "argstack" then fresh.argstack else prev.argstack,
+    csmap := fresh.csmap, out := [] }
+
+/-- One page of a document: /Rotate, MediaBox, colour-space resources, content tokens. -/
+structure PageIn where
+  rotate : Int
+  mb : Rect
+  res : List (String × CsSpec)
+  toks : List Tok
+
+/-- `for page in pages: interpreter.process_page(page)` with one interpreter: the state a page's content
+leaves behind (dangling path, unmatched `q`, colours, operands) is what the next page's `init_state` sees.
+After an exception the caller (`extract_pages`) stops; the model keeps the last good state. -/
+def runPagesFrom (prev : IState) : List PageIn → List (Except Err (List Shape))
+  | [] => []
+  | p :: rest =>
+    let (x0, y0, x1, y1) := p.mb
+    match execute p.toks (initStateOn prev (pageCtm p.rotate x0 y0 x1 y1) p.res) with
+    | .ok st => .ok st.out :: runPagesFrom st rest
+    | .error e => .error e :: runPagesFrom prev rest
 
 end PdfVerif.Paths
